@@ -10,7 +10,7 @@ and `pathOf`), ids are keys, names are valid, no row mentions a crate or track t
 memberships are duplicate-free.  The tie evaluates the same function on the rows an independent reader
 takes from the real database after every step.
 -/
-import Proofs.CratesV1WfRaw
+import Proofs.CratesV1WfConv
 import Proofs.CratesV1TrackCols
 
 namespace EngineModel.Properties.C11V1
@@ -57,6 +57,12 @@ theorem C11_encodings_agree (s : Schema) (ops : List Op) :
     · exact ((parentOf_eq_some hf).mp hp).1
     · obtain ⟨r, hr, rfl⟩ := exists_row hc
       exact (root_row_iff hf hr).mp hp
+
+/-- `WfRaw` is EXACTLY the invariant: for any raw state whatsoever (reachable or not — e.g. the rows read back
+from the real database), the executable predicate holds iff `Inv` does.  So a dump that passes the run-time
+check satisfies everything the C07 / C08 query agreements are derived from, and a dump that fails it violates
+a named part of the invariant. -/
+theorem C11_wfRaw_iff_invariant (db : Db) : WfRaw db = true ↔ Inv db := wfRaw_iff_inv db
 
 /-- Memberships are stored once, and only between crates and tracks that exist. -/
 theorem C11_membership_rows_wellformed (s : Schema) (ops : List Op) :
